@@ -480,12 +480,12 @@ class LDMService:
         ----------
         subscription_id : int
         """
+        # Look-up and removal form one atomic step: of two racing unsubscriptions only one succeeds
         with self._lock:
-            subscriptions = self.subscriptions.copy()
-        to_remove = set()
-        for subscription in subscriptions:
-            if hash(subscription.subscription_request) == subscription_id:
-                to_remove.add(subscription)
-        for subscription in to_remove:
-            self.remove_subscription(subscription)
-        return bool(to_remove)
+            to_remove = set()
+            for subscription in self.subscriptions:
+                if hash(subscription.subscription_request) == subscription_id:
+                    to_remove.add(subscription)
+            for subscription in to_remove:
+                self.remove_subscription(subscription)
+            return bool(to_remove)
